@@ -245,17 +245,52 @@ def run(ctx):
                             ctx.disagree("seam B: selected read not among candidates", desc, r["name"], None)
                 if tr["cost"] != 0:
                     ctx.disagree("seam C: solver cost for error-free reads", desc, tr["cost"], 0)
+                raw = trace_to_raw(tr)
                 inst = trace_to_inst(tr)
                 if inst is not None:
-                    model_reqs.append({"op": "c01.cost", "inst": inst}); model_meta.append((desc, tr["cost"]))
+                    # the model gets the solver's real input (positions + ReadSet); Lean's `mkInst` (model of
+                    # ColumnIterator) makes the column instance; the Python conversion is kept as a cross-check
+                    model_reqs.append({"op": "c01.mkinst", "raw": raw}); model_meta.append((desc, ("mkinst", inst)))
+                    model_reqs.append({"op": "c01.cost", "raw": raw}); model_meta.append((desc, ("cost", tr["cost"])))
                 ctx.validated()
             if len(ctx.samples) < 2:
                 ctx.sample({"case": desc, "n_records": len(recs), "n_trace": len(trace)})
     finally:
         shutil.rmtree(wd, ignore_errors=True)
-    for (desc, cost), ans in zip(model_meta, ctx.model.ask_many(model_reqs)):
-        if ans.get("cost") != cost:
-            ctx.disagree("c01.cost on traced pipeline instance", desc, cost, ans.get("cost"))
+    # one request at a time: a `c01.mkinst` answer is a whole instance, and pipelining requests behind an answer
+    # that fills the model's stdout pipe would deadlock
+    for (desc, (what, expect)), ans in zip(model_meta, (ctx.model.ask_many([r])[0] for r in model_reqs)):
+        if what == "mkinst":
+            if ans.get("inst") != expect:
+                ctx.disagree("c01.mkinst on traced pipeline input (Lean conversion vs Python conversion)", desc,
+                             expect, ans)
+        elif ans.get("cost") != expect:
+            ctx.disagree("c01.cost on traced pipeline instance", desc, expect, ans.get("cost", ans))
+
+
+def trace_to_raw(tr):
+    """the solver's real input of a trace record (`c01.*` ops, key "raw"): positions + reads at genomic positions"""
+    fam = tr["family"]
+    ids = tr["numeric_sample_ids"]
+    ind_of = {ids[s]: i for i, s in enumerate(fam)}
+    pos = tr["accessible_positions"]
+    geno = []
+    for s in fam:
+        per = []
+        for i in range(len(pos)):
+            gl = tr["genotype_likelihoods"][s][i]
+            if tr["distrust_genotypes"] and gl is not None:
+                per.append([int(x) for x in gl])
+            else:
+                g = tr["genotypes"][s][i]
+                k = sum(g) if (len(g) == 2 and all(a in (0, 1) for a in g)) else None
+                per.append([0 if j == k else None for j in range(3)])
+        geno.append(per)
+    return {"positions": list(pos),
+            "reads": [{"ind": ind_of[rd["sample_id"]], "variants": [list(v) for v in rd["variants"]]}
+                      for rd in tr["all_reads"]],
+            "nind": len(fam), "trios": [[fam.index(f), fam.index(m), fam.index(c)] for f, m, c in tr["trios"]],
+            "geno": geno, "recomb": tr["recombination_costs"]}
 
 
 def trace_to_inst(tr, max_cov=12):
